@@ -162,10 +162,56 @@ def nondet_findings(tree: ast.AST) -> List[tuple]:
                 else:
                     return False
         return True
+    def skip_escapes(call: ast.Call) -> List[str]:
+        """For `if id(x) in seen: continue` / `if id(x) not in seen: ...`: the work that is skipped
+        for an object met before.  Skipping is value-neutral only when that work is confined to the
+        object itself (in-place normalisation) and to locals; a store through self records something
+        per occurrence, and two equal specifications (one spelled out, one sharing the object through
+        a YAML alias) would then compile differently."""
+        cmp_ = par.get(call)
+        if not (isinstance(cmp_, ast.Compare) and isinstance(cmp_.ops[0], (ast.In, ast.NotIn))):
+            return []
+        test = cmp_
+        while isinstance(par.get(test), (ast.BoolOp, ast.UnaryOp)):
+            test = par[test]
+        if_ = par.get(test)
+        if not (isinstance(if_, ast.If) and if_.test is test):
+            return []
+        skipped: List[ast.stmt] = []
+        if isinstance(cmp_.ops[0], ast.NotIn):
+            skipped = list(if_.body)
+        elif if_.body and isinstance(if_.body[-1], (ast.Continue, ast.Return, ast.Break)):
+            holder = par.get(if_)
+            for fld in ("body", "orelse"):
+                sts = getattr(holder, fld, None)
+                if isinstance(sts, list) and if_ in sts:
+                    skipped = sts[sts.index(if_) + 1:]
+        esc = []
+        for st in skipped:
+            for x in ast.walk(st):
+                recv = None
+                if isinstance(x, ast.Call) and isinstance(x.func, ast.Attribute) and x.func.attr in paths.MUTATORS:
+                    recv = x.func.value
+                elif isinstance(x, (ast.Assign, ast.AugAssign, ast.AnnAssign)):
+                    for t in (x.targets if isinstance(x, ast.Assign) else [x.target]):
+                        if isinstance(t, (ast.Subscript, ast.Attribute)):
+                            recv = t
+                b = recv
+                while isinstance(b, (ast.Subscript, ast.Attribute)):
+                    b = b.value
+                if isinstance(b, ast.Name) and b.id in ("self", "cls"):
+                    esc.append(norm(recv)[:50])
+        return esc
+
     for n in ast.walk(tree):
         if isinstance(n, ast.Call):
             if isinstance(n.func, ast.Name) and n.func.id == "id":
                 if identity_only(n):
+                    esc = skip_escapes(n)
+                    if esc:
+                        out.append((n, "work skipped for an object met before (id() test) is recorded per "
+                                       "occurrence (%s): an aliased entry and a spelled-out copy of it "
+                                       "compile differently" % ", ".join(sorted(set(esc))[:3])))
                     continue
                 out.append((n, "id() call"))
             elif isinstance(n.func, ast.Name) and n.func.id in NONDET_CALLS and n.func.id in imported:
@@ -377,6 +423,17 @@ def mutants(db: DB):
         M("loop order list reversed in place", "teaal/ir/loop_order.py", "    def get_ranks(self) -> List[str]:",
           "    def get_ranks_rev(self) -> List[str]:\n        self.ranks.reverse()\n        return self.ranks\n\n    def get_ranks(self) -> List[str]:",
           "A1"),
+        M("loop order list extended with += (C15-u3)", "teaal/trans/collector.py",
+          "        loop_order = self.program.get_loop_order().get_ranks() + [\"body\"]",
+          "        loop_order = self.program.get_loop_order().get_ranks()\n        loop_order += [\"body\"]", "A1"),
+        M("benign: += on a fresh copy of the loop order", "teaal/trans/collector.py",
+          "        loop_order = self.program.get_loop_order().get_ranks() + [\"body\"]",
+          "        loop_order = list(self.program.get_loop_order().get_ranks())\n        loop_order += [\"body\"]",
+          (), benign=True),
+        M("aliased binding entries read once across Einsums (C13-u3)", "teaal/parse/bindings.py",
+          "            for binding in yaml[\"bindings\"][einsum]:\n                if \"config\" in binding:",
+          "            for binding in yaml[\"bindings\"][einsum]:\n                if id(binding) in self.__dict__.setdefault(\"_seen\", set()):\n                    continue\n                self._seen.add(id(binding))\n                if \"config\" in binding:",
+          "G2"),
         M("architecture attributes defaulted in place", "teaal/ir/component.py",
           "        self.bandwidth = self._check_attr(attrs, \"bandwidth\", int)",
           "        attrs.setdefault(\"bandwidth\", 1)\n        self.bandwidth = self._check_attr(attrs, \"bandwidth\", int)", "A1"),
